@@ -24,6 +24,10 @@ EN_LAYOUTS = {
     'd Month yyyy': lambda d: '%d %s %d' % (d.day, MON_EN[d.month - 1], d.year),
     'dth of Month yyyy': lambda d: '%d%s of %s %d' % (d.day, suf(d.day), MON_EN[d.month - 1], d.year),
     'the dth of Month, yyyy': lambda d: 'the %d%s of %s, %d' % (d.day, suf(d.day), MON_EN[d.month - 1], d.year),
+    # the same numeric layouts with blanks around the separators / backslashes (all recognised by the unchanged tree)
+    'm / d / yyyy': lambda d: '%d / %d / %d' % (d.month, d.day, d.year),
+    'm - d - yyyy': lambda d: '%d - %d - %d' % (d.month, d.day, d.year),
+    'm\\d\\yyyy': lambda d: '%d\\%d\\%d' % (d.month, d.day, d.year),
 }
 EN_CARRIERS = ['{}', 'I will leave on {}', '{} is the deadline', 'see you on {} .', '   {}', '  we meet {}  ']
 
@@ -59,6 +63,12 @@ def layouts(culture):
         out['d-m-yyyy'] = lambda d: '%d-%d-%d' % (d.day, d.month, d.year)
         out['dd/mm/yyyy'] = lambda d: '%02d/%02d/%d' % (d.day, d.month, d.year)
         out['month-name'] = lambda d: c['name'](d, c['months'][d.month - 1])
+        out['d / m / yyyy'] = lambda d: '%d / %d / %d' % (d.day, d.month, d.year)
+        out['d/ m/ yyyy'] = lambda d: '%d/ %d/ %d' % (d.day, d.month, d.year)
+        out['d - m - yyyy'] = lambda d: '%d - %d - %d' % (d.day, d.month, d.year)
+        out['d.m.yyyy'] = lambda d: '%d.%d.%d' % (d.day, d.month, d.year)
+        out['dd.mm.yyyy'] = lambda d: '%02d.%02d.%d' % (d.day, d.month, d.year)
+        out['d\\m\\yyyy'] = lambda d: '%d\\%d\\%d' % (d.day, d.month, d.year)
     return out
 
 
